@@ -202,5 +202,12 @@ def run(ctx):
     r34(ctx)
     r5(ctx)
     r6(ctx)
+    # R8 SANITY-EXACT (= C07.R2): "the library's own sanity check accepts it" for every reachable position needs is_sane to
+    # reject nothing but the required conjuncts (a further, wrong rejection refuses a position legal play reaches)
+    from . import c07
+    from ..bb import bb as _bb
+    _bb(('unit',), ctx.an())
+    sub = Sub(ctx, {'C07.R2': 'C05.R8'})
+    c07.r2(sub)
     # R7 GEOMETRY (= C16.R1/R2, C15.R1/R2): a wrong table entry makes the generator emit a move that leaves the position invalid
     tables_dep(ctx, 'C05.R7', ['movegen::movegen::MoveGen::new_legal', 'board::Board::make_move', 'board::Board::make_move_new'])
